@@ -180,6 +180,18 @@ Theorem C08_RowSingleton_opposite_bound_signs : forall inf i j lhs rhs aij val o
 Proof. exact upper_meets_lower_signs. Qed.
 Print Assumptions C08_RowSingleton_opposite_bound_signs.
 
+(* the mirrored branch: the LOWER bound the row implies equals the variable's own UPPER bound *)
+Theorem C08_RowSingleton_opposite_bound_signs_upper : forall inf i j lhs rhs aij val oldLo oldUp t0,
+  let newLo := if Qltb' 0 aij then lhs / aij else rhs / aij in
+  let newUp := if Qltb' 0 aij then rhs / aij else lhs / aij in
+  gcs t0 j = FIXED -> (Qleb newLo oldLo && Qleb oldUp newUp) = false -> Qeq_bool newLo newUp = false -> Qeq_bool newLo oldUp = true ->
+  ~ aij == 0 -> gx t0 j == oldUp -> val == gr t0 j ->
+  let t' := rs_decide (exact_cmps inf) t0 i j lhs rhs aij val oldLo oldUp 0 in
+  (gy t' i < 0 -> rhs == aij * gx t' j) /\ (0 < gy t' i -> lhs == aij * gx t' j) /\
+  (gr t' j < 0 -> oldUp == gx t' j) /\ ~ 0 < gr t' j.
+Proof. exact lower_meets_upper_signs. Qed.
+Print Assumptions C08_RowSingleton_opposite_bound_signs_upper.
+
 (* the hypotheses are satisfiable: 0 <= x_0 <= 10 with the singleton row x_0 <= 0 (lhs -100 stands for a remote side), reduced cost -2 *)
 Example C08_RowSingleton_opposite_bound_example :
   let t0 := mkst [0] [0] [0] [-2] [FIXED] [UNDEFINED] in
